@@ -3,7 +3,7 @@ import z3
 from mirsym.engine import *
 from mirsym.values import *
 from mirsym.obligation import *
-from mirsym import models_core, models_fvm, models_std
+from mirsym import models_core, models_fvm, models_std, models_evm
 from mirsym.models_core import variant, payload, deep_eq, some, none, ok, err
 from mirsym.models_fvm import (RuntimeM, AddrV, addr_eq, BigV, big, MapM, base_info, BaseInfo, key_eq, heap_get, CidV,
                                BlockV, SymBytes, new_cid, ACTOR_TYPES)
